@@ -24,9 +24,10 @@ pub struct Stored {
 /// Values of every size class up to the legal maximum of 1000 bytes: a short text, 640 bytes, 1000 bytes (with the `nodes`
 /// list of a storing node that knows 20 peers the answer is a datagram of about 1.6 kB)
 fn sized(mut val: Vec<u8>, i: u64) -> Vec<u8> {
-    let want = match i % 5 {
+    let want = match i % 4 {
         1 => 1000,
-        3 => 640,
+        2 => 640,
+        3 => 999,
         _ => val.len(),
     };
     let mut k = 0u8;
